@@ -135,5 +135,5 @@ class C12(Check):
 
 
 def main(tier, seed, replay=None):
-    from harness import densex
-    return densex.extend(C12, densex.D12())().main(tier, seed, replay)
+    from harness import densex, forest
+    return densex.extend(densex.extend(C12, densex.D12()), forest.DForest(), tag='forest')().main(tier, seed, replay)
